@@ -25,6 +25,7 @@ type retrySpec struct {
 	MaxR     int      `json:"maxr"`
 	Interval int      `json:"interval_ms"`
 	DurMs    int      `json:"dur_ms"` // every attempt of a failing outcome takes this long
+	Forever  bool     `json:"forever"` // the job fails on every attempt
 }
 
 type retryBatch struct {
@@ -53,6 +54,7 @@ type retryObs struct {
 	Crashed   bool         `json:"crashed"`
 	Returned  bool         `json:"returned"` // direct: the call returned normally
 	Detail    string       `json:"detail,omitempty"`
+	AfterStop int          `json:"attempts_after_stop"` // zero_interval: attempts started later than 50 ms after Stop returned
 }
 
 type scripted struct {
@@ -94,6 +96,9 @@ func (j *scripted) Execute(ctx context.Context) error {
 	out := "ok"
 	if k < len(j.spec.Script) {
 		out = j.spec.Script[k]
+	}
+	if j.spec.Forever {
+		out = "fail"
 	}
 	if j.onAttempt != nil && fire <= 1 {
 		j.onAttempt(k, ctx)
@@ -161,6 +166,13 @@ func runRetryBatch(b retryBatch) []retryObs {
 					go func() { time.Sleep(time.Duration(sp.Interval) * time.Millisecond / 3); doStop() }()
 				}
 			}
+		case "zero_interval":
+			j.onAttempt = func(k int, ctx context.Context) {
+				if k == 3 {
+					go doStop()
+				}
+				time.Sleep(200 * time.Microsecond)
+			}
 		case "during_attempt":
 			j.onAttempt = func(k int, ctx context.Context) {
 				if k == 1 {
@@ -204,9 +216,20 @@ func runRetryBatch(b retryBatch) []retryObs {
 		}
 		time.Sleep(time.Duration(60+2*maxInterval(b.Specs)) * time.Millisecond)
 	}
+	stopAt := int64(time.Since(base) / time.Microsecond)
 	waitOK := stopAndWait(s, 6*time.Second)
 	for i, j := range js {
 		j.mu.Lock()
+		if b.Cancel == "zero_interval" {
+			for _, a := range j.first {
+				if a.Start > stopAt+50000 {
+					out[i].AfterStop++
+				}
+			}
+			if len(j.first) > 400 {
+				j.first = j.first[:400]
+			}
+		}
 		out[i].Kind, out[i].Via, out[i].Mode, out[i].Cancel, out[i].Spec = "retry", "scheduler", b.Mode, b.Cancel, j.spec
 		out[i].Attempts = append([]attemptRec{}, j.first...)
 		out[i].Attempts2 = append([]attemptRec{}, j.second...)
@@ -339,6 +362,8 @@ func cmdRetry() {
 		}
 		batches = append(batches, retryBatch{Mode: mode, Limit: 2, Cancel: "before_wait",
 			Specs: []retrySpec{{Name: "c0_" + mode, Script: []string{"fail", "fail", "fail", "ok"}, MaxR: 5, Interval: 0}}})
+		batches = append(batches, retryBatch{Mode: mode, Limit: 2, Cancel: "zero_interval",
+			Specs: []retrySpec{{Name: "z0_" + mode, Script: []string{"fail"}, MaxR: 2000000, Interval: 0, Forever: true}}})
 	}
 	only := argStr(4, "")
 	var wg sync.WaitGroup
